@@ -114,6 +114,7 @@ def main(ck):
                             "case": i, "event_index": k, "trace": traces[i]}
 
     run_ix(ck, binp, ok)
+    run_wa(ck, binp, ok)
 
 
 # ---------------------------------------------------------------------------------------------
@@ -223,3 +224,48 @@ def run_ix(ck, binp, coq_ok):
             d[f["kind"]] = d.get(f["kind"], 0) + 1
     ck.cov["rule"] += (" || ix: traces of create/mat/alter(d,sgd,igd)/expand/restart/tick per partition over the real meta.Data; "
                        "non-trivial = a pass deleted a shard or an index")
+
+
+# ---------------------------------------------------------------------------------------------
+# write admission: the real coordinator step under its own coarse clock (bracketed)
+
+def run_wa(ck, binp, coq_ok):
+    import re
+    n = 400 if ck.tier == "quick" else 6000
+    rc, out = ck.run([binp, "wa", str(n)], timeout=1800)
+    cases = [json.loads(l) for l in out.splitlines() if l.startswith('{"mode":"wa"')]
+    if rc != 0 or len(cases) != n:
+        ck.broken.append("harness c14 wa failed rc=%d cases=%d: %s" % (rc, len(cases), out[-500:]))
+        return
+    body = ";\n".join("(%s, %s, %s, %s)" % (coq_z(c["d"]), coq_z(c["nowsec"]), coq_z(c["min_time"]),
+                                              coq_list(["(%s, %s)" % (coq_z(r["t"]), coq_bool(r["mapped"])) for r in c["rows"]]))
+                       for c in cases)
+    txt = (xcases.XHEAD + "Definition cases : list wacase := [\n%s\n].\n"
+           "Definition M := Eval vm_compute in wa_mismatches cases.\nPrint M.\n") % body
+    mism = []
+    if coq_ok:
+        rc2, o = ck.coq_eval("wacases", txt)
+        m = re.search(r"M\s*=\s*(.*?)\s*:\s*list nat", o, re.S)
+        if rc2 != 0 or not m:
+            ck.broken.append("model evaluation (wa) failed: %s" % o[-400:])
+        else:
+            mism = [int(x) for x in re.findall(r"\d+", m.group(1))]
+    oracle_fail = [(i, c) for i, c in enumerate(cases) if c["oracle"]]
+    for i, c in oracle_fail[:3]:
+        ck.violation({"kind": "direct-oracle", "mode": "wa", "what": c["oracle"], "case": i, "batch": c})
+    if mism and not oracle_fail:
+        i = mism[0]
+        ck.broken.append("correspondence C14 (write admission) model/implementation differs on case %d" % i)
+        ck.nofail_detail = {"kind": "correspondence-wa", "explanation": "the coordinator admitted/rejected a row differently from "
+                            "write_accept(d at lookup, coordinator clock) or used a different threshold; the direct oracle (in-window "
+                            "points are admitted, admitted points land in a live group) found no failing input", "case": i, "batch": cases[i]}
+    rows = sum(len(c["rows"]) for c in cases)
+    near = sum(1 for c in cases for r in c["rows"] if abs(r["off"]) <= 2)
+    ck.cov["evaluations"] += len(cases)
+    ck.cov["distinct_nontrivial"] += len({json.dumps([c["d"], [r["off"] for r in c["rows"]]]) for c in cases
+                                          if any(r["mapped"] for r in c["rows"]) and any(not r["mapped"] for r in c["rows"])})
+    ck.cov["traces_validated_against_impl"] += len(cases) - len(mism) if coq_ok else 0
+    ck.cov["wa"] = {"batches": len(cases), "rows": rows, "rows_within_2ns_of_threshold": near,
+                    "batches_with_alter_during_routing": sum(1 for c in cases if c["alter_at"] >= 0)}
+    ck.cov["rule"] += (" || wa: write batches with timestamps at threshold-1h,-1s,-2ns,-1ns,0,+1ns,+2ns,+1s,.. under the coordinator's "
+                       "clock; non-trivial = a batch with both admitted and rejected rows")
